@@ -5,7 +5,7 @@
    (exception, or death of the process with any amount of buffered data flushed), [fc] to the
    cleanup handler; both are universally quantified. *)
 From Coq Require Import List ZArith.
-From Basyx Require Import model.Crash proofs.CrashProofs.
+From Basyx Require Import model.Crash proofs.CrashProofs model.CrashConc proofs.CrashConcProofs.
 Import ListNotations.
 
 (* Every effect list accepted by the discipline [disc] (encode; open/write/close the temporary
@@ -119,3 +119,28 @@ Example C15_example :
   exec_hist h d0 = [(FDoc 1, Full 7); (FOther 0, Trunc 3%Z); (FDoc 2, Full 4); (FTmp 0, Trunc 10%Z); (FTmp 1, Trunc 4%Z)]
   /\ r_iter (exec_hist h d0) = Some [(1, 7); (2, 4)] /\ r_get (exec_hist h d0) 0 = AKeyError.
 Proof. vm_compute. repeat split; reflexivity. Qed.
+
+(* Concurrent writers (model/CrashConc.v): any number of threads of one process committing the same document, every
+   interleaving of their effects, every effect of every writer working, raising (cleanup succeeding or failing), the
+   process dying at any point (= the schedule ends), stale temporary files lying around.  As long as the writers use
+   pairwise different temporary file names, the document always holds the complete old version or the complete version
+   of one of the writers. *)
+Theorem C15_concurrent_safe : forall (name : nat -> nat) (vof : nat -> cver) v0 stale sched,
+  (forall a b, name a = name b -> a = b) ->
+  let s := crun name vof sched (cinit v0 stale) in
+  cdoc s = Some (CFull v0) \/ exists w, cdoc s = Some (CFull (vof w)).
+Proof. exact conc_safe. Qed.
+
+(* The premise is needed: with one temporary name per process two threads destroy the document (writer 0 has closed
+   its file, writer 1 truncates it by opening, writer 0 renames it over the document, writer 1's write fails). *)
+Theorem C15_concurrent_shared_name_refuted :
+  let sched := [(0, COk); (0, COk); (0, COk); (1, COk); (0, COk); (1, CRaise)] in
+  let s := crun (fun _ => 0) (fun w => 6 + w) sched (cinit 2 (fun _ => None)) in
+  cdoc s = Some CPart /\ ~ cdoc_ok (fun w => 6 + w) 2 s /\ cph s 0 = WDone /\ cph s 1 = WFailed.
+Proof. exact conc_shared_unsafe. Qed.
+
+Example C15_concurrent_example :
+  let sched := [(0, COk); (1, COk); (2, COk); (0, COk); (1, CRaise); (2, COk); (0, COk); (2, COk); (0, COk); (2, COk)] in
+  let s := crun (fun w => w) (fun w => 6 + w) sched (cinit 2 (fun n => if Nat.eqb n 7 then Some CPart else None)) in
+  cdoc s = Some (CFull 8) /\ cph s 0 = WDone /\ cph s 1 = WFailed /\ cph s 2 = WDone /\ ctmp s 7 = Some CPart.
+Proof. exact conc_example. Qed.
